@@ -138,6 +138,15 @@ def make_solver(ctx, which, st, xd0, xmin=None, xmax=None, extra=None):
     return ctx.make(cls, **solver_kwargs(st, xd0, xmin, xmax, extra))
 
 
+def geneos_cell(ctx, st, xd0, a, b, t):
+    """cell size of the grid the general-EOS solver actually uses for the window [a, b]: it widens the window to 1.1 x the
+    extreme wave positions in absolute coordinates, which far from the origin is much wider than the waves"""
+    s = make_solver(ctx, "GenEOS", st, xd0, a, b)
+    ctx.call(s, np.array([xd0]), t)
+    gx = np.asarray(s.x, dtype=float)
+    return max((b - a) / 10000.0, float(gx.max() - gx.min()) / max(len(gx) - 1, 1))
+
+
 def probe(ctx, which, st, xd0, t):
     """One cheap call to learn the wave pattern and speeds (solver attributes soln_type, Vregs).
     Raises SolverRaised for vacuum-forming / out-of-bracket states (loud, counted)."""
